@@ -10,7 +10,7 @@ Sites == {"literal", "shl", "shl-lhs", "shr", "div", "div-lhs", "mod", "mul", "a
           "seg-name", "bank-name", "useseg-name", "test-name", "nested-call", "macro-recursion", "macro-mutual",
           "shadow-segments", "interp-number", "text-number", "if-string",
           "seg-redefine", "seg-redefine-moved", "bank-redefine",       \* a definition repeated after code was emitted to it
-          "seg-target-low", "seg-target-high", "loop-nested",
+          "seg-target-low", "seg-target-high", "seg-storage-high", "loop-nested",
           "macro-recursion-untaken", "macro-mutual-untaken",
           "mixed-types", "mixed-types-insn", "macro-value", "seg-start-string",
           "import-super", "import-as-super", "import-super-path",   \* `super' where an import expects a name of the imported file
@@ -32,7 +32,7 @@ Ideal(c) ==
   CASE c.site \in {"seg-name", "bank-name", "useseg-name"} -> "diagnostic"      \* a name containing '.' (a test name may be a path)
     [] c.site \in {"nested-call"} -> "value"
     [] c.site \in {"macro-recursion", "macro-mutual"} -> "diagnostic"
-    [] c.site \in {"seg-target-low", "seg-target-high"} -> "diagnostic"
+    [] c.site \in {"seg-target-low", "seg-target-high", "seg-storage-high"} -> "diagnostic"
     [] c.site \in {"mixed-types", "mixed-types-insn", "macro-value", "seg-start-string"} -> "diagnostic"
     [] c.site \in {"seg-redefine", "seg-redefine-moved", "bank-redefine"} -> "diagnostic"
     [] c.site \in {"nested-calls", "unclosed-parens", "nested-defined", "macro-blocks-3", "macro-blocks-95", "macro-ifs-40"} -> "diagnostic"
